@@ -24,7 +24,7 @@ CHECKS = {
         'For constructors, operator overloads and set_units the tie is differential testing; the theorems are about the model.',
         '4.17'),
     'C03': (
-        'Coq proof of the ledger invariant for both scheduler models (abstract step machine refined by the recursive pass) + verified boolean oracle evaluated on the rows returned by the implementation + the usage ledger and both fill loops of schedule.py translated from the source text on every run and proved equal to the model (gen/SrcSched.v, gen/SrcFill.v; C03_src_*: reserved = used, reserve, fwd/bwd shift, the translated loops keep the ledger within capacity)',
+        'Coq proof of the ledger invariant for both scheduler models (abstract step machine refined by the recursive pass) + verified boolean oracle evaluated on the rows returned by the implementation + the usage ledger and both fill loops of schedule.py translated from the source text on every run and proved equal to the model (gen/SrcSched.v, gen/SrcFill.v; C03_src_*: reserved = used, reserve, fwd/bwd shift, the translated loops keep the ledger within capacity) + the recursive pass (both schedulers) translated from the source text on every run and proved related to the model pass for every input; the property transported to the translated source (gen/SrcPass.v, C03_src_*_pass)',
         'Theorems (Props_C03.v): for every WBS, capacity function >= 0, balance setting, bound and clock, every row of the '
         'forward/backward model schedule is a positive amount on its task\'s resource on a day with capacity and the day\'s '
         'bookings never exceed the capacity; the oracle c03_b is proved equivalent to that statement and is evaluated on what '
@@ -58,7 +58,7 @@ CHECKS = {
         'column order of the usage table (iteration order of a Python set) is observed, not modelled.',
         '4.20'),
     'C09': (
-        'Coq proof of an invariant of the abstract scheduling machine refined by the backward pass (deadline, dependencies incl. inherited ones, date encoding, late packing) + reflection of the boolean oracle evaluated on the implementation\'s schedules + exact differential correspondence on the dyadic grid + the backward search/fill primitives translated from the source text on every run and proved equal to the model (gen/SrcFill.v, C09_src_*)',
+        'Coq proof of an invariant of the abstract scheduling machine refined by the backward pass (deadline, dependencies incl. inherited ones, date encoding, late packing) + reflection of the boolean oracle evaluated on the implementation\'s schedules + exact differential correspondence on the dyadic grid + the backward search/fill primitives translated from the source text on every run and proved equal to the model (gen/SrcFill.v, C09_src_*) + the recursive pass (BackwardScheduler.__backward_pass) translated from the source text on every run and proved related to the model pass for every input; the property transported to the translated source (gen/SrcPass.v, C09_src_backward_pass)',
         'Theorems (Props_C09.v, closed under the global context; hypotheses WFin w, cap_nonneg, no user-fixed dates, backward = Ok): no task ends after the project end; '
         'every own or inherited dependency has predecessor end <= successor start (also seen from below a dependant summary); both date formulas for both balance settings, leaves without work included; '
         'with balancing on the days between end and due date and between two work days are fully booked in the final ledger; c09_b is equivalent to the Prop statement and the model\'s output passes it. '
@@ -74,21 +74,21 @@ CHECKS = {
         'del of a built-in field before cloning is excluded.',
         '4.10'),
     'C02': (
-        'Coq proof of an invariant of the abstract scheduling machine refined by the forward pass (bounds of leaf starts and reservations, milestone placement, roll-up of prerequisite summaries to their leaves) + reflection of the boolean oracle evaluated on the implementation\'s schedules + differential correspondence',
+        'Coq proof of an invariant of the abstract scheduling machine refined by the forward pass (bounds of leaf starts and reservations, milestone placement, roll-up of prerequisite summaries to their leaves) + reflection of the boolean oracle evaluated on the implementation\'s schedules + differential correspondence + the recursive pass (ForwardScheduler.__forward_pass) translated from the source text on every run and proved related to the model pass for every input; the property transported to the translated source (gen/SrcPass.v, C02_src_forward_pass)',
         'Theorems (Props_C02.v, closed under the global context; WFin w, cap_nonneg, forward = Ok): every leaf without user dates starts, and has every reservation, on a day not earlier than project start, clock, min_start and the end of every task below any own or inherited prerequisite; '
         'milestones sit exactly at the latest prerequisite end or the project start; c02_b is equivalent to that statement and the model\'s output passes it. The start clause for leaves with a user-fixed END is refuted (C02_fixed_end_conflict: start <= end of C07 wins), the reservation clause holds for them.',
         SCHED_TRUST, '4.2'),
     'C04': (
-        'Coq proof of per-task ledger facts as an invariant of the abstract scheduling machine for both passes (conservation, once per day, window, date/last-day agreement, nothing for milestones/completed/summaries, fixed dates kept) + full reflection of the oracle + exact differential correspondence + the two fill loops translated from the source text on every run and proved equal to the model (gen/SrcFill.v, C04_src_*)',
+        'Coq proof of per-task ledger facts as an invariant of the abstract scheduling machine for both passes (conservation, once per day, window, date/last-day agreement, nothing for milestones/completed/summaries, fixed dates kept) + full reflection of the oracle + exact differential correspondence + the recursive pass (both schedulers) translated from the source text on every run and proved related to the model pass for every input; the property transported to the translated source (gen/SrcPass.v, C04_src_*_pass) + the two fill loops translated from the source text on every run and proved equal to the model (gen/SrcFill.v, C04_src_*)',
         'Theorems (Props_C04.v, closed; WFin w, cap_nonneg, capacities <= 24h-equivalent units [cap_small, shown necessary by C04_cap_small_needed], forward/backward = Ok): C04_conserve_once, C04_window, C04_nothing, C04_fixed, both schedulers; c04_b <-> statement; model output passes the oracle.',
         SCHED_TRUST, '4.4'),
     'C06': (
-        'Coq proof that every member gets both dates and that the forward pass does not read the clock when clock <= project start (equal final states for any two such clocks); purity, shape and repeatability are decided by the differential run (stated as such)',
+        'Coq proof that every member gets both dates and that the forward pass does not read the clock when clock <= project start (equal final states for any two such clocks); purity, shape and repeatability are decided by the differential run (stated as such) + the recursive pass (both schedulers) translated from the source text on every run and proved related to the model pass for every input; the property transported to the translated source (gen/SrcPass.v, C06_src_*_pass)',
         'Theorems (Props_C06.v, closed): C06_dates_forward/backward, C06_forward/backward_reaches_all, C06_clock (whole final state equal for two clocks <= project start when both runs return), C06_clock_pass, C06_clock_outcome. '
         'Input purity, same ids/hierarchy/links/attributes in the result, and equal results of repeated calls are true of any Gallina function by construction: they are checked on the implementation only (snapshots before/after, calc twice on one scheduler, once on a fresh one, once with another clock).',
         SCHED_TRUST, '4.6'),
     'C07': (
-        'Coq proof of start <= end and of the roll-ups as invariants of the abstract scheduling machine for both passes, tree induction for WBS.start/end + full reflection of the oracle + differential correspondence',
+        'Coq proof of start <= end and of the roll-ups as invariants of the abstract scheduling machine for both passes, tree induction for WBS.start/end + full reflection of the oracle + differential correspondence + the recursive pass (both schedulers) translated from the source text on every run and proved related to the model pass for every input; the property transported to the translated source (gen/SrcPass.v, C07_src_*_pass)',
         'Theorems (Props_C07.v, closed; WFin w): C07_forward/backward (summary start = min, end = max, estimate/spent = sums of children, user values replaced), C07_order_forward/backward, C07_wbs (min/max over roots = min/max over all members), c07_b <-> statement, model output passes the oracle.',
         SCHED_TRUST, '4.7'),
     'C13': (
@@ -104,17 +104,17 @@ CHECKS = {
         'Trusted: Coq kernel + vm_compute, hand-written model, harness; ASSUMPTIONS: the Mermaid line grammar and entity codes (#NN;), "an HTML element ends at its first closing tag", JSON as json.dumps writes it - no JavaScript engine offline to validate them.',
         '4.19'),
     'C08': (
-        'Coq proof of tightness, date encoding, WBS order and removal-independence for the forward pass (machine invariants; order by induction on the recursive pass; independence by a simulation between two runs) + two-way reflection of the oracle + exact differential correspondence (dates, row order) and a direct with/without-task comparison on the implementation + the forward search/fill primitives translated from the source text on every run and proved equal to the model (gen/SrcFill.v, C08_src_*)',
+        'Coq proof of tightness, date encoding, WBS order and removal-independence for the forward pass (machine invariants; order by induction on the recursive pass; independence by a simulation between two runs) + two-way reflection of the oracle + exact differential correspondence (dates, row order) and a direct with/without-task comparison on the implementation + the forward search/fill primitives translated from the source text on every run and proved equal to the model (gen/SrcFill.v, C08_src_*) + the recursive pass (ForwardScheduler.__forward_pass) translated from the source text on every run and proved related to the model pass for every input; the property transported to the translated source (gen/SrcPass.v, C08_src_forward_pass)',
         'Theorems (Props_C08.v, closed): C08_tight / C08_tight_leaves (balancing on: resource fully booked from the release day up to the last work day, in the FINAL ledger), C08_encode (both date formulas, any clock), C08_order (unlinked leaves served in WBS order), '
         'C08_indep / C08_indep_set (balancing off: deleting - or blanking - any unrelated set of tasks, closed under hierarchy and links: isolated leaves, linked clusters, whole subtrees - leaves every other task\'s dates unchanged; the second run need not be assumed), c08_task_b (incl. leaves without work) / c08_order_b <-> statements, model output passes the oracle.',
         SCHED_TRUST + ' Leaves with user-fixed start or end are outside the C08 theorems (free_leaf).', '4.8'),
     'C14': (
-        'Coq proof that both scheduler models answer Ok or Err and never Crash under WFin (fuel suffices, no None arithmetic, no empty max/min, divisors positive), that each unschedulable class answers Err and that Err has no other cause (completeness) + outcome-class correspondence incl. an extra stream of unschedulable inputs; recursion depth probed on the implementation (known finding) + the four day-by-day loops translated from the source text on every run: proved to end within their fuel and to raise nothing but RuntimeError (gen/SrcFill.v, C14_src_*_outcome)',
+        'Coq proof that both scheduler models answer Ok or Err and never Crash under WFin (fuel suffices, no None arithmetic, no empty max/min, divisors positive), that each unschedulable class answers Err and that Err has no other cause (completeness) + outcome-class correspondence incl. an extra stream of unschedulable inputs; recursion depth probed on the implementation (known finding) + the four day-by-day loops translated from the source text on every run: proved to end within their fuel and to raise nothing but RuntimeError (gen/SrcFill.v, C14_src_*_outcome) + the recursive pass (both schedulers) translated from the source text on every run and proved related to the model pass for every input; the property transported to the translated source (gen/SrcPass.v, C14_src_*_pass_total / _outcome: never an exception other than RuntimeError, never out of fuel)',
         'Theorems (Props_C14.v, closed): C14_total_forward/backward, C14_compute_no_crash, C14_divisors_positive, C14_err_isolated / _future_end / _no_capacity / _cycle / _hierarchy_cycle, C14_reentry, C14_err_causes_*, C14_complete_* (Err only from the four causes, read as: no reachable machine state is stuck). '
         'Known finding F16 (chains deeper than the interpreter recursion limit raise RecursionError) is probed on every run and reported as KNOWN-FINDING; the model has no interpreter stack.',
         SCHED_TRUST, '4.14'),
     'C01': (
-        'Coq proof that every public mutator preserves the invariant WF (9 conjuncts: finiteness, parent/children mirror, acyclic hierarchy, symmetric duplicate-free links, no dependency cycle, no link between ancestor and descendant, id uniqueness per tree, hidden roots, ownership), by induction over histories + reflection wf_b <-> WF evaluated on the implementation\'s snapshot after every call (also raising ones) + step-wise model comparison + the four relation setters of Task, the closure walks and the guards translated from the source text on every run and proved equal to the model in every well-formed state, hence WF-preserving as the source reads today (gen/SrcGraph.v, C01_src_*)',
+        'Coq proof that every public mutator preserves the invariant WF (9 conjuncts: finiteness, parent/children mirror, acyclic hierarchy, symmetric duplicate-free links, no dependency cycle, no link between ancestor and descendant, id uniqueness per tree, hidden roots, ownership), by induction over histories + reflection wf_b <-> WF evaluated on the implementation\'s snapshot after every call (also raising ones) + step-wise model comparison + the four relation setters of Task, the closure walks and the guards translated from the source text on every run and proved equal to the model in every well-formed state, hence WF-preserving as the source reads today; likewise the list facades append / remove / insert / move / reorder and the link facades (gen/SrcGraph.v, C01_src_*)',
         'Theorems (Props_C01.v, closed under the global context): C01_step (WF s -> pub_args s o -> WF (fst (step s o)) for all 24 operation kinds, whatever the outcome), C01_run/C01_reach/C01_prefixes (every state reachable from init by public histories, at every prefix), C01_meaning (WF in the property\'s words over the public view), C01_oracle (wf_b s = true <-> WF s); C01_src_set_parent / _set_predecessors / _set_successors / _set_children (translated setter = model setter under WF) with _keeps_WF and _no_crash, C01_src_parent / _all_parents / _all_predecessors / _all_successors / _check_no_links_with / _unique_tasks.',
         GT, '4.1'),
     'C05': (
@@ -130,7 +130,7 @@ CHECKS = {
         'Theorems (Props_C15.v, closed): C15_atomic / C15_atomic_core (21 kinds, all states), C15_atomic_every_op (all 24 kinds under WF), C15_atomic_reach (every state reached by a public history), C15_remove_all_never_raises, C15_all_or_nothing; C15_refuted_lst_shift, C15_refuted_lst_set_parent, C15_refuted_new_task_rel refute the bare sequences (finding F10, repaired in /repo by 0693848).',
         GT, '4.15'),
     'C16': (
-        'Coq proof of the documented effect of every accepted mutator (exact new lists for assignment, append, insert, move, stable sort, reorder, removals; effect of the three setters incl. owner propagation and mirror lists) and of per-setter frame theorems + full-state comparison of model and implementation after every accepted call + the four relation setters translated from the source text on every run and proved to produce the heap and the rejections of the model in every well-formed state (gen/SrcGraph.v, C16_src_set_*)',
+        'Coq proof of the documented effect of every accepted mutator (exact new lists for assignment, append, insert, move, stable sort, reorder, removals; effect of the three setters incl. owner propagation and mirror lists) and of per-setter frame theorems + full-state comparison of model and implementation after every accepted call + the four relation setters translated from the source text on every run and proved to produce the heap and the rejections of the model in every well-formed state, likewise the list facades move / insert / reorder / append / remove (move and reorder in every state) (gen/SrcGraph.v, C16_src_set_*, C16_src_ch_*)',
         'Theorems (Props_C16.v, closed): C16_move, C16_insert, C16_sort (permutation, sorted, stable, reverse), C16_reorder, C16_append, C16_remove, C16_remove_all, C16_floordiv, C16_wbs_remove, C16_set_parent, C16_set_children(+own), C16_set_links, C16_mirror, C16_frame_set_parent/_children/_links/_derived, C16_frame_only_kids.',
         GT + ' Sort keys restricted to id / integer attribute / name / estimate (None values raise TypeError); the frame is stated per setter.', '4.16'),
 }
